@@ -170,6 +170,7 @@ class Case(object):
         self.loopspecs = loopspecs or {}
         self.unsupported = None
         self.sha = None
+        self.extra = {}
         try:
             self._setup()
         except Unsupported as e:
@@ -351,9 +352,8 @@ class Case(object):
                                                        z3.Not(sn.A.dom[se]), z3.Not(sn.S.dom[se]))))
         if pol == 'mru' and sn.q is not None:
             q = sn.q
-            out.append(('Inv_mru.nodup', forall([x], q.cnt[x] <= 1, patterns=[q.cnt[x]])))
-            out.append(('Inv_mru.resident', forall([x], z3.Implies(q.cnt[x] >= 1, sn.mem.dom[x]),
-                                                      patterns=[q.cnt[x]])))
+            out.append(('Inv_mru.hashable', forall([x], z3.Implies(q.cnt[x] >= 1, Hashable(x)),
+                                                   patterns=[q.cnt[x]])))
         return out
 
     # ------------------------------------------------------------------------------------
@@ -402,6 +402,7 @@ class Case(object):
         st, pre = self.havoc()
         a0, k0 = z3.Const('args', Val), z3.Const('kwds', Val)
         st.assume(*self.call_assumptions(a0, k0))
+        self.extra['call'] = {'pre': pre, 'a0': a0, 'k0': k0}
         I.cur_func = '%s.wrapper' % self.qual
         I.fn_pre = pre
         I.obligations = []
@@ -508,13 +509,57 @@ class Case(object):
             ob('C07', 'parked_archive_untouched', z3.And(map_eq(pre.S, post.S)))
             ob('C08', 'archive_off_untouched', z3.Implies(pre.A.null, map_eq(pre.A, post.A)))
             # ---- C06 (hit removes nothing; the policy-specific victim clauses are in policy.py)
-            if normal:
+            if normal and self.policy != 'no':
                 ob('C06', 'hit_removes_nothing', z3.Implies(z3.And(usable, inmem), map_eq(pre.mem, post.mem)))
                 if self.policy in ('lfu', 'lru', 'mru', 'rr'):
                     noov = z3.And(usable, z3.Not(inmem), size0 + 1 <= self.M)
                     ob('C06', 'no_overflow_removes_nothing', z3.Implies(noov, forall([x], z3.Implies(
                         pre.mem.dom[x], z3.And(post.mem.dom[x], post.mem.val[x] == pre.mem.val[x])))))
                     ob('C06', 'new_entry_resident_without_overflow', z3.Implies(noov, post.mem.dom[key]))
+            # ---- C06: the advertised policy (DESIGN.md 5, C06).  Coh = every resident key has
+            # bookkeeping (entered through a call since the last clear); the victim clauses are
+            # stated under Coh, the "use is recorded" clauses unconditionally.
+            if normal and self.policy in ('lfu', 'lru', 'mru', 'rr'):
+                y = z3.Const('y!q', Val)
+                evict = z3.And(usable, z3.Not(inmem), size0 + 1 > self.M, z3.Not(z3.And(on, self.P)))
+                removed = lambda t: z3.And(z3.Or(pre.mem.dom[t], t == key), z3.Not(post.mem.dom[t]))
+                if self.policy == 'lfu' and pre.C is not None and post.C is not None:
+                    U0, U1 = pre.C, post.C
+                    u0 = lambda t: z3.If(U0.dom[t], U0.val[t], 0)
+                    ucur = lambda t: u0(t) + z3.If(t == key, 1, 0)
+                    coh = forall([x], z3.Implies(pre.mem.dom[x], U0.dom[x]), patterns=[pre.mem.dom[x]])
+                    ob('C06', 'lfu.use_recorded', z3.Implies(z3.And(usable, post.mem.dom[key]),
+                                                             z3.And(U1.dom[key], U1.val[key] == u0(key) + 1)))
+                    ob('C06', 'lfu.other_counts_unchanged', forall([x], z3.Implies(
+                        z3.And(x != key, U1.dom[x]), z3.And(U0.dom[x], U1.val[x] == U0.val[x]))))
+                    ob('C06', 'lfu.victims_least_frequent', z3.Implies(z3.And(evict, coh), forall([x, y], z3.Implies(
+                        z3.And(removed(x), post.mem.dom[y]), ucur(x) <= ucur(y)))))
+                    ob('C06', 'lfu.bookkeeping_covers_residents', z3.Implies(coh, forall([x], z3.Implies(
+                        post.mem.dom[x], U1.dom[x]))))
+                if self.policy in ('lru', 'mru') and pre.q is not None and post.q is not None:
+                    q0, q1 = pre.q, post.q
+                    coh = forall([x], z3.Implies(pre.mem.dom[x], q0.cnt[x] >= 1), patterns=[pre.mem.dom[x]])
+                    ob('C06', '%s.use_recorded' % self.policy, z3.Implies(
+                        z3.And(usable, post.mem.dom[key]),
+                        z3.And(q1.cnt[key] >= 1, q1.last[key] == q1.hi - 1)))
+                    ob('C06', '%s.recency_order_preserved' % self.policy, forall([x, y], z3.Implies(
+                        z3.And(x != key, y != key, q1.cnt[x] >= 1, q1.cnt[y] >= 1, q0.cnt[x] >= 1, q0.cnt[y] >= 1),
+                        (q0.last[x] < q0.last[y]) == (q1.last[x] < q1.last[y]))))
+                    ob('C06', '%s.bookkeeping_covers_residents' % self.policy, z3.Implies(coh, forall([x], z3.Implies(
+                        post.mem.dom[x], q1.cnt[x] >= 1))))
+                    if self.policy == 'lru':
+                        older = lambda v, t: q0.last[v] < q0.last[t]
+                    else:
+                        older = lambda v, t: q0.last[v] > q0.last[t]
+                    ob('C06', '%s.victim' % self.policy, z3.Implies(z3.And(evict, coh), z3.And(
+                        post.mem.dom[key], size1 == size0,
+                        forall([x, y], z3.Implies(z3.And(removed(x), pre.mem.dom[y], y != x),
+                                                  z3.And(post.mem.dom[y], older(x, y)))))))
+                if self.policy == 'rr':
+                    ob('C06', 'rr.exactly_one_victim', z3.Implies(evict, z3.And(
+                        size1 == size0, forall([x, y], z3.Implies(z3.And(removed(x), removed(y)), x == y)))))
+                ob('C06', 'survivors_keep_their_values', forall([x], z3.Implies(
+                    z3.And(pre.mem.dom[x], post.mem.dom[x]), post.mem.val[x] == pre.mem.val[x])))
             # ---- Inv'
             for (nm, g) in self.inv(post):
                 ob('INV', 'inv.%s' % nm, g)
@@ -583,6 +628,7 @@ def obligations_key_lookup(case, which):
     st, pre = case.havoc()
     a0, k0 = z3.Const('args', Val), z3.Const('kwds', Val)
     st.assume(*case.call_assumptions(a0, k0))
+    case.extra[which] = {'pre': pre, 'a0': a0, 'k0': k0}
     I.cur_func = fn
     I.fn_pre = pre
     I.obligations = []
@@ -631,6 +677,7 @@ def obligations_info(case):
         return obs
     names, _ = cacheinfo_fields()
     st, pre = case.havoc()
+    case.extra['info'] = {'pre': pre}
     I.cur_func = fn
     I.fn_pre = pre
     for (s, res) in I.call(st, f, CallArgs()):
@@ -684,10 +731,11 @@ def obligations_clear(case):
         else:
             ca = CallArgs([], {'keepstats': BoolV(keep)})
             keepv = keep
+        case.extra['clear:' + mode] = {'pre': pre, 'keep': keep, 'mode': mode}
         for (s, res) in I.call(st, f, ca):
             post = Snap(case, s)
             path = mode + '/' + '/'.join(s.labels)
-            ob = _mk_ob(obs, fn, s, path, case, 'clear')
+            ob = _mk_ob(obs, fn, s, path, case, 'clear:' + mode)
             x = x_()
             ob('C15', 'returns_normally', not isinstance(res, Exc))
             ob('C15', 'empties_memory', z3.And(post.mem.size == 0, forall([x], z3.Not(post.mem.dom[x]))))
@@ -780,10 +828,15 @@ def obligations_management(case):
                           func=fnq, path='', info={'case': case.qual, 'op': 'interface'}))
     # Init => Inv  (fresh bookkeeping, zero statistics)
     init = Snap(case, st0)
+    pc0 = list(st0.pc)
+    se = case.sentinel_term()
+    if se is not None:
+        # freshness: an object allocated by the prologue is not a key of a container that existed before
+        pc0 += [z3.Not(init.mem.dom[se]), z3.Not(init.A.dom[se]), z3.Not(init.S.dom[se])]
     for (nm, gl) in case.inv(init):
         if nm.startswith('Inv_val'):
             continue        # contents of a user-supplied cache object: precondition (ownership)
-        obs.append(Obligation('%s/init.%s' % (fnq, nm), st0.pc, gl, prop='INV', func=fnq, path='init',
+        obs.append(Obligation('%s/init.%s' % (fnq, nm), pc0, gl, prop='INV', func=fnq, path='init',
                               info={'case': case.qual, 'op': 'init'}))
     if init.stats is not None:
         obs.append(Obligation('%s/init.stats_zero' % fnq, st0.pc, z3.And(*[t == 0 for t in init.stats]),
@@ -820,3 +873,21 @@ def all_obligations(case):
     obs += obligations_archive(case)
     obs += obligations_management(case)
     return obs
+
+
+# =============================================================================================
+# witness classes of known findings (DESIGN.md 3.9): a known finding names an obligation and a
+# predicate over its inputs; the obligation is re-posed with that class excluded and must then
+# discharge -- anything the solver still finds is a different violation.
+# =============================================================================================
+def _excl_no_cache_resident_archived(case, extra):
+    pre = extra['pre']
+    x = x_()
+    return forall([x], z3.Implies(pre.mem.dom[x], pre.A.dom[x]), patterns=[pre.mem.dom[x]])
+
+
+EXCLUSIONS = {
+    # no_cache retrieval path: `result = cache[key]; cache.clear()` drops resident entries that
+    # are not in the attached archive -> excluded class: some resident key is not archived
+    'no_cache.resident_entry_not_in_archive': _excl_no_cache_resident_archived,
+}
